@@ -12,6 +12,9 @@
 //   (4) two encryptions never share the nonce ("fresh nonce/salt").
 // Narrow seams (export shim, overlay group c01) are enumerated directly against the reference: polyvalDot,
 // Polyval.Update, the RFC 8452 CTR, deriveKeys, XAES derivePerMessageKey.
+// Fallback (shims do not compile against a refactored tree, see check.sh / Section.Seam): the CTR, deriveKeys and
+// XAES sections are skipped; polyval-dot runs the same pairs through the exported Polyval of internal/aead and
+// aead/subtle; polyval-update and every key-type section use exported API only and run unchanged.
 //
 // Don't care: which error text is returned; behaviour for invalid parameters (refusal of AES-192 etc. is not part
 // of the statement); the distribution of nonces beyond "two consecutive ones differ"; timing.
@@ -276,10 +279,22 @@ func dense() []ref.AeadFE {
 func checkDot(x *h.X, a, b ref.AeadFE, alsoSubtle bool) bool {
 	x.Eval(1)
 	want := ref.AeadPolyvalDot(a, b)
-	lo, hi := c01b.PolyvalDot(a.Lo, a.Hi, b.Lo, b.Hi)
-	if lo != want.Lo || hi != want.Hi {
-		x.Fail("polyval-dot", "internal/aead polyvalDot(%016x%016x, %016x%016x) = %016x%016x, bitwise GF(2^128) reference %016x%016x (hi,lo)", a.Hi, a.Lo, b.Hi, b.Lo, hi, lo, want.Hi, want.Lo)
-		return false
+	if h.Seams() {
+		lo, hi := c01b.PolyvalDot(a.Lo, a.Hi, b.Lo, b.Hi)
+		if lo != want.Lo || hi != want.Hi {
+			x.Fail("polyval-dot", "internal/aead polyvalDot(%016x%016x, %016x%016x) = %016x%016x, bitwise GF(2^128) reference %016x%016x (hi,lo)", a.Hi, a.Lo, b.Hi, b.Lo, hi, lo, want.Hi, want.Lo)
+			return false
+		}
+	} else {
+		// seam unavailable (tink internals refactored): the same product through the exported API of internal/aead -
+		// one Update of block a under key b is dot(a,b) - and the public copy for every pair
+		bb, ab := b.Bytes(), a.Bytes()
+		got, err := c01b.Polyval(bb[:], ab[:])
+		if wb := want.Bytes(); err != nil || got != wb {
+			x.Fail("polyval-dot", "internal/aead Polyval key %x block %x = %x, bitwise GF(2^128) reference %x (err %v)", bb, ab, got, wb, err)
+			return false
+		}
+		alsoSubtle = true
 	}
 	if alsoSubtle {
 		// the public copy aead/subtle.NewPolyval: one Update of block a under key b is dot(a,b)
@@ -535,9 +550,9 @@ func main() {
 	secs = append(secs,
 		h.Section{Name: "seam-polyval-dot", Body: seamDot, Bound: -1},
 		h.Section{Name: "seam-polyval-update", Body: seamUpdate, Bound: -1},
-		h.Section{Name: "seam-gcmsiv-ctr", Body: seamCTR, Bound: -1},
-		h.Section{Name: "seam-gcmsiv-derivekeys", Body: seamDerive, Bound: -1},
-		h.Section{Name: "seam-xaes-derive", Body: seamXAES, Bound: -1})
+		h.Section{Name: "seam-gcmsiv-ctr", Body: seamCTR, Bound: -1, Seam: true},
+		h.Section{Name: "seam-gcmsiv-derivekeys", Body: seamDerive, Bound: -1, Seam: true},
+		h.Section{Name: "seam-xaes-derive", Body: seamXAES, Bound: -1, Seam: true})
 	h.Main("C01", "exploration",
 		"product of (AEAD key type x key/IV/tag/salt sizes x hash x variant x id x construction path; envelope: DEK template x KEK x path) x message domain (every plaintext length 0..64 quick / 0..80 thorough and block/KiB corners up to 65537 x AD nil/empty/lengths, patterns); per message: round trip, nil/empty AD interchange, ciphertext = reference prefix||nonce||body with body byte-identical to the independent reference run on the nonce parsed from tink's output, reference decrypts it; reverse interop for 5 reference-chosen nonces (00.., FF.., FF..FE, ..FFFFFFFF, counter); fresh nonce. Seams enumerated against the bitwise reference: polyvalDot on 128x128 basis pairs, 301^2 weight<=2 lattice pairs, 256^2 dense pairs; Polyval.Update every length; RFC 8452 CTR for wrapping counter words x every length; deriveKeys; XAES derivePerMessageKey. A case is non-trivial when a primitive was built and driven through its message domain; distinct = distinct choice vectors.",
 		secs)
